@@ -106,12 +106,32 @@ def classify(rc, text):
 
 
 def run_parser(args, timeout=120, input_=None):
+    """Runs the reference parser in its own process group; on timeout the whole group is killed
+    (the parser forks compile workers, which would otherwise survive it and keep a core busy)."""
+    import signal
     try:
-        p = subprocess.run([PARSER] + args, stdout=subprocess.PIPE, stderr=subprocess.PIPE,
-                           timeout=timeout, input=input_)
-        return p.returncode, p.stdout, p.stderr
+        p = subprocess.Popen([PARSER] + args, stdin=subprocess.PIPE if input_ is not None else subprocess.DEVNULL,
+                             stdout=subprocess.PIPE, stderr=subprocess.PIPE, start_new_session=True)
+    except OSError as e:
+        return None, b"", str(e).encode()
+    try:
+        out, err = p.communicate(input=input_, timeout=timeout)
+        return p.returncode, out, err
     except subprocess.TimeoutExpired:
+        try:
+            os.killpg(p.pid, signal.SIGKILL)
+        except OSError:
+            pass
+        try:
+            p.communicate(timeout=10)
+        except Exception:
+            pass
         return None, b"", b"TIMEOUT"
+    finally:
+        try:
+            os.killpg(p.pid, signal.SIGKILL)      # no straggler of the group may outlive the call
+        except OSError:
+            pass
 
 
 def parse_file(ov, path, compile_=False, timeout=300):
